@@ -1264,6 +1264,9 @@ func pickIdlePieces(t *Torrent, count int) {
 		for _, p := range t.peers {
 			fast := p.GetFast()
 			for _, i := range fast {
+				if i >= uint32(maxp) {
+					continue
+				}
 				if !t.Pieces.Complete(i) && p.GetHave(i) {
 					if add(i) {
 						return
